@@ -635,6 +635,11 @@ def shape_stream():
                     lines.append("pos 0 popleft")
                     lines.append("pos 0 drain")
                     yield lines
+            # observing must not change (or be changed by) what pops do: iterate, pop, iterate again
+            lines = ["pos 0 new 0"] + [f"pos 0 appendpri {i + 1} {pat(i)}" for i in range(n)]
+            lines += ["pos 0 iter", "pos 0 popleft", "pos 0 iter", "pos 0 popleft", "pos 0 popleft", "pos 0 iter",
+                      f"pos 0 appendpri {n + 1} 0", "pos 0 iter", "pos 0 drain"]
+            yield lines
 
 
 def exhaustive_pos(maxlen):
